@@ -3,7 +3,7 @@
    render_entity_with_schema's text; the import blocks of the two Python ORMs), and for every generated
    action the outcome of format!("{}", action) under catch_unwind.  [check_*] recompute them with the model
    and return the ids of the sub-checks that differ.  No proofs here. *)
-From VV.EXP Require Export Names PyClass RustIdent.
+From VV.EXP Require Export Names PyClass RustIdent SeaConfig.
 
 (* long runs of one character are printed by the harness as [rep_str "c" n] *)
 Definition rep_str (u : string) (n : N) : string := N.iter n (String.append u) "".
@@ -21,9 +21,11 @@ Record xt := mkXT {
   xt_sm : list (list string);   (* same for SQLModel *)
   xt_pyclass : string;       (* name of the table class in the SQLAlchemy output *)
   xt_invalid : list string;
-  xt_sm_text : list bool }.     (* per column, in order: does its SQLModel Field(...) line wrap the default in text("...")? *)   (* O-C17's reports "invalid-<kind>:<name>" for the SeaORM declarations of this table *)
+  xt_sm_text : list bool;
+  xt_cfg_lines : list (list string) }.   (* the configuration-dependent lines of the SeaORM entity rendered under the
+                                            case's drawn configuration: every DISTINCT list seen over the repeated renders *)     (* per column, in order: does its SQLModel Field(...) line wrap the default in text("...")? *)   (* O-C17's reports "invalid-<kind>:<name>" for the SeaORM declarations of this table *)
 
-Record exp_case := mkXC { x_schema : schema; x_obs : list xt }.
+Record exp_case := mkXC { x_schema : schema; x_cfg : sea_config; x_obs : list xt }.
 
 Definition sea_check (s : schema) (t : table_def) (o : sea_obs) : bool :=
   match o, members s t with
@@ -41,22 +43,24 @@ Definition imports_check (model : list string) (impl : list (list string)) : boo
 Definition ascii_only (s : string) : bool := all_chars (fun a => negb (non_ascii a)) s.
 
 (* sub-checks: 1 SeaORM declarations, 2 SQLAlchemy import block, 3 SQLModel import block, 4 Python class name,
-   5 SQLModel: which columns wrap their default in text(...) *)
-Definition check_table (s : schema) (t : table_def) (o : xt) : list nat :=
+   5 SQLModel: which columns wrap their default in text(...), 6 SeaORM lines that depend on the export configuration *)
+Definition check_table (cfg : sea_config) (s : schema) (t : table_def) (o : xt) : list nat :=
   (if sea_check s t (xt_sea o) then [] else [1%nat])
   ++ (if imports_check (sqlalchemy_imports id_oracle id_oracle t) (xt_sa o) then [] else [2%nat])
   ++ (if imports_check (sqlmodel_imports id_oracle t) (xt_sm o) then [] else [3%nat])
   ++ (if (negb (ascii_only (t_name t)) || String.eqb (py_pascal_case (t_name t)) (xt_pyclass o))%bool then [] else [4%nat])
-  ++ (if list_eqb Bool.eqb (map sqlmodel_column_uses_text (t_columns t)) (xt_sm_text o) then [] else [5%nat]).
+  ++ (if list_eqb Bool.eqb (map sqlmodel_column_uses_text (t_columns t)) (xt_sm_text o) then [] else [5%nat])
+  ++ (if (negb (Nat.eqb (List.length (xt_cfg_lines o)) 0)
+          && forallb (list_eqb String.eqb (config_lines cfg t)) (xt_cfg_lines o))%bool then [] else [6%nat]).
 
-Fixpoint check_tables (s : schema) (ts : list table_def) (os : list xt) (i : nat) : list nat :=
+Fixpoint check_tables (cfg : sea_config) (s : schema) (ts : list table_def) (os : list xt) (i : nat) : list nat :=
   match ts, os with
-  | t :: tr, o :: or => map (fun k => (10 * i + k)%nat) (check_table s t o) ++ check_tables s tr or (S i)
+  | t :: tr, o :: or => map (fun k => (10 * i + k)%nat) (check_table cfg s t o) ++ check_tables cfg s tr or (S i)
   | [], [] => []
   | _, _ => [(10 * i + 9)%nat]          (* observation list and schema differ in length *)
   end.
 (* codes 10 * table index + sub-check *)
-Definition check_case (c : exp_case) : list nat := check_tables (x_schema c) (x_schema c) (x_obs c) 0.
+Definition check_case (c : exp_case) : list nat := check_tables (x_cfg c) (x_schema c) (x_schema c) (x_obs c) 0.
 
 Fixpoint mismatches_from (i : nat) (cs : list exp_case) : list (nat * list nat) :=
   match cs with
